@@ -27,7 +27,7 @@ import logic
 
 ID = "C18"
 TRUSTED = [
-    "translator/logic.py (ast -> Lean for the delta tests and the findings cut-off)",
+    "translator/logic.py (symbolic tracing of the real functions -> Lean for the delta tests and the findings cut-off)",
     "correspondence harness harness/props/C18.py: reads rich Table internals (`Column._cells`, `Column.footer`, `Table.show_footer`) and parses console lines; rich's layout itself is not modelled",
 ]
 ASSUMPTIONS = [
